@@ -159,7 +159,14 @@ class Model:
         f = d.get("file")
         if not f or f == "<string>":
             return None
-        return self.funcs.get((f, d["qualname"]))
+        res = self.funcs.get((f, d["qualname"]))
+        # a decorated method is seen by introspection as the decorator's wrapper: prefer the def in the class body
+        oc = self.classes[owner]
+        if oc.get("file") and (res is None or not d["qualname"].endswith("." + attr) or f != oc["file"]):
+            direct = self.funcs.get((oc["file"], oc["name"] + "." + attr))
+            if direct is not None:
+                return direct
+        return res
 
     def method_owner(self, key, attr):
         r = self.resolve_attr(key, attr)
